@@ -11,8 +11,9 @@ from harness.common import EPS_MONEY, bt, dates, frame
 BOUNDS = {
     'quick': 'risk: nested tree root->[sub(a x1, b x10), c x0.5], two measures (one without an entry for c), history depth 0..2, symbolic positions, 2 dates; '
              'hedge: one risk source + 2 hedge instruments with multipliers {1,10}, exact inverse and pseudo-inverse (1 instrument / 2 measures), optional '
-             'separate hedge strategy re-hedged on a second date; close/roll: 2 securities x 5 dates, close date, roll date and trading start chosen by the solver',
-    'thorough': 'more unit-risk tables and multipliers',
+             'separate hedge strategy re-hedged on a second date; close/roll: 2 securities x 5 dates, close date, roll date and trading start chosen by the solver; '
+             'roll_many: three securities with symbolic positions rolling into one target (and a chain d->a->c) on 9 date triples; unit-risk tables with different date indices',
+    'thorough': 'roll_many on all 64 date triples x {common target, chain}; hedge multipliers {0.5,2,100,10,0.25} x separate/misaligned',
 }
 ASSUMPTIONS = ['unit-risk tables and multipliers concrete (grid); positions symbolic']
 PR = {'a': [100.0, 105.0, 95.0, 101.5, 98.0], 'b': [37.5, 33.0, 41.25, 40.0, 42.5], 'c': [10.0, 11.0, 12.5, 9.75, 10.5]}
@@ -269,6 +270,16 @@ def plan(tier):
     tasks.append(dict(harness='close_roll', cfg={}, opts=opts))
     for when in ([1, 1, 1], [1, 1, 3], [0, 0, 2], [2, 1, 2], [3, 3, 3], [1, 2, 2]):
         tasks.append(dict(harness='roll_many', cfg=dict(when=when), opts=opts))
+    if tier != 'quick':
+        import itertools
+        for when in itertools.product(range(4), repeat=3):
+            for tgt in ('c', 'a'):
+                tasks.append(dict(harness='roll_many', cfg=dict(when=list(when), d_target=tgt), opts=opts))
+        for mults in ([0.5, 2.0], [100.0, 10.0], [2.0, 0.25]):
+            for sep in (0, 1):
+                for mis in (0, 1):
+                    tasks.append(dict(harness='hedge', cfg=dict(mults=mults, separate=sep, pseudo=0, misaligned=mis), opts=opts))
+            tasks.append(dict(harness='hedge', cfg=dict(mults=mults, separate=0, pseudo=1), opts=opts))
     for when in ([1, 1, 1], [2, 3, 2], [2, 1, 1]):
         tasks.append(dict(harness='roll_many', cfg=dict(when=when, d_target='a'), opts=opts))      # chain: d rolls into a, a into c
     return tasks
